@@ -54,6 +54,9 @@ func genAddr(rng interface{ Intn(int) int }) addrSpec {
 	}
 	if rng.Intn(2) == 0 {
 		n := rng.Intn(7)
+		if rng.Intn(6) == 0 { // long proxy chains
+			n = []int{15, 16, 17, 18, 33, 64}[rng.Intn(6)]
+		}
 		var chain []string
 		for i := 0; i < n; i++ {
 			e := ip()
@@ -66,6 +69,10 @@ func genAddr(rng interface{ Intn(int) int }) addrSpec {
 				e = "  " + e + "  "
 			case 3:
 				e = "[" + e + "]"
+			case 4:
+				if !strings.Contains(e, ":") {
+					e = e + ":" + fmt.Sprint(1024+rng.Intn(60000)) // a source port appended, as some balancers do
+				}
 			}
 			chain = append(chain, e)
 		}
